@@ -165,9 +165,13 @@ def run_shard(ctx, shard):
         tag = '{' + ','.join(tags) + '}'
         other = rng.choice(['', 'hi', 'p q', 'label'])
         if kind in ('box', 'rbox'):
-            w = len(tag) + (len(other) + 1 if other else 0) + rng.randint(2, 5)
-            first = rng.random() < 0.5 or not other
-            inner = ' ' + (tag + (' ' + other if other else '') if first else other + ' ' + tag)
+            tight = rng.random() < 0.3
+            first = (rng.random() < 0.5 or not other) and not (tight and other)
+            lead = '' if tight and rng.random() < 0.5 else ' '
+            inner = lead + (tag + (' ' + other if other else '') if first else other + ' ' + tag)
+            # `tight`: the closing brace of the tag touches the right border (and maybe the opening one the left)
+            w = len(inner) if tight and not first or (tight and not other) else len(tag) + (len(other) + 1 if other else 0) + rng.randint(2, 5)
+            w = max(w, len(inner))
             h = rng.randint(1, 3)
             row = rng.randrange(h)
             rows = gen.box(w, h, inner={row: inner})
